@@ -302,6 +302,12 @@ class Walker:
                 p.env[target.value.id] = ast.Dict(keys=list(cur.keys) + [subst(target.slice, p.env)], values=list(cur.values) + [val])
                 for other in p.alias.get(target.value.id, ()):
                     p.env[other] = p.env[target.value.id]
+            elif self.track_stores and isinstance(target.value, ast.Attribute) and isinstance(target.value.value, ast.Name) and target.value.value.id in p.env \
+                    and target.value.attr in ("imag", "real", "data", "T", "mT"):
+                # x.imag[idx] = v : a store into (a view of) x
+                name = target.value.value.id
+                old_v = p.env[name]
+                p.env[name] = ast.Call(func=ast.Name(id="__store__", ctx=ast.Load()), args=[old_v, ast.Tuple(elts=[ast.Constant(value=target.value.attr), subst(target.slice, p.env)], ctx=ast.Load()), value], keywords=[])
             elif self.track_stores and isinstance(target.value, ast.Name) and target.value.id in p.env:
                 # x[idx] = v  ==>  x := __store__(x, idx, v): later uses of x depend on v
                 old_v = p.env[target.value.id]
